@@ -159,7 +159,9 @@ CHECKS = {
          'Semiring/PatternedTensor code on the z3-valued tensor model; star is decided least with a Knaster-Tarski query (fresh universally quantified y). '
          'Right level: laws over a value domain are exactly what a solver can quantify over and tests can only sample.',
     note='Bounds: operands 0-d/1-d Tensors and all ordered pairs of patterned operands over shapes (2,),(2,2) [thorough +(3,),(2,3)] x defaults {zero,one,inf}; vectors of length<=4; naturals<=6. '
-         'Log semiring in exponential representation; exp(-1) and exp(+-FLT_MAX) are boxed uninterpreted constants. NaN is not a carrier element.',
+         'Log semiring in exponential representation; exp(-1) and exp(+-FLT_MAX) are boxed uninterpreted constants. NaN is not a carrier element. '
+         'One float-rounding effect is modelled, for LogSemiring.star only (law star_absorb): exp(x) is exactly 1.0 for x in (log(1-u),0), u=2^-25 (float32) / 2^-54 (float64); '
+         'on that class star(x) must stay below the infinite element; counterexamples are replayed at x=-u/2 after checking torch.exp(x)==1 on real torch. All other rounding stays outside the claim.',
     technique='SMT validity queries over symbolic execution of the real code (z3, NRA/LRA)', design='5/C08'),
  'C19': dict(
     text='Bounded symbolic execution of the real scc/nonterminal_graph: adjacency bits, insertion order and HRG shape are solver variables; '
